@@ -318,6 +318,8 @@ def _ledger(run):
             rep.add(t[len(want_ph0 + " == "):])
     run.check("R1", bool(rep), "keys hash compared (whole value) before success", key=f"{fn.qualname}|hash-compare", where=fn.loc(),
               message="the reported public-keys hash is not compared for equality with compute_pubkeys_hash(load_pubkeys(file)) on every path to success")
+    from sa.canon import canon_sums as _cs0
+    rep, want_rep = {_strip(_cs0(x)) for x in rep}, {_strip(_cs0(x)) for x in want_rep}
     run.check("R1", rep == want_rep or not rep, "reported hash = rest of the legacy message / public_keys_hash field",
               key=f"{fn.qualname}|reported-hash", where=fn.loc(),
               message="the reported keys hash is taken from somewhere else than the signed signer message: "
@@ -330,8 +332,12 @@ def _ledger(run):
     tail_want = _strip(_fold_names(f"{smsg}[{shl} + 32:]", consts))
     from sa.canon import canon_sums as _cs
     len_want = {_strip(_cs(_fold_names(f"len({smsg}) <= {shl} + 32", consts))), _strip(_cs(_fold_names(f"len({smsg}) == {shl} + 32", consts)))}
+    from sa.canon import compose_slices as _cmp_sl
+    tail_c = _strip(_cmp_sl(tail_want))
     tail_ok_edges = [en for en in g.nodes if en.kind in ("T", "F") and en.cond is not None and en.cond.kind == "cond"
                      and (f"{tail_want} == b''" in edge_texts(en) or f"len({tail_want}) == 0" in edge_texts(en)
+                          # the same slice written relative to the reported hash (`reported[32:]`), or tested for emptiness by its truth value
+                          or any(_strip(_cmp_sl(t)) in (f"{tail_c} == b''", f"not {tail_c}", f"len({tail_c}) == 0") for t in edge_texts(en))
                           # no byte beyond the hash: the whole message is no longer than header + 32
                           or any(_strip(_cs(t)) in len_want for t in edge_texts(en)))]
     okt = bool(tail_ok_edges) and hcn is not None and all(g.all_paths_pass(le, hcn, set(tail_ok_edges)) for le in legacy_last) and bool(legacy_last)
